@@ -686,18 +686,21 @@ func setFromParamVal(buf []byte, pf *PFromBody) ErrorHdr {
 }
 
 func pUInt64Val(b []byte) (n uint64, err ErrorHdr) {
-
-	if len(b) > 20 {
-		err = ErrHdrValTooLong
-		return
-	}
+	const max = ^uint64(0)
 
 	for _, c := range b {
 		if c < '0' || c > '9' {
 			err = ErrHdrValNotNumber
 			return
 		}
-		n = n*10 + uint64(c-'0')
+		d := uint64(c - '0')
+		if n > (max-d)/10 {
+			// too big for an uint64: saturate instead of wrapping around
+			// (keep checking the remaining chars)
+			n = max
+			continue
+		}
+		n = n*10 + d
 	}
 
 	return
